@@ -102,10 +102,9 @@ def run_case(case, ctx):
         ctx.cls(f'{"spin" if spin else "spinless"}:{"optimized" if opt else "explicit"}:onehot_{"t" if len(idx) == 2 else "v"}')
     ctx.nontrivial = L >= 2
     Href = reference(spin, t, v)
-    if opt and not np.any(Href):
-        # identically-zero operator (e.g. v = e_iikl, t = 0): the optimized path compiles a chain list whose coefficients are all zero,
-        # which is outside the documented domain of the chain compiler (C05: at least one non-zero coefficient)
-        raise core.OutOfDomain()
+    if not np.any(Href):
+        # identically-zero operator (e.g. t = 0, v = e_iikl): C07 quantifies over ALL coefficient tensors, so this is in the domain
+        ctx.cls('zero_operator')
     mpo = build(spin, t, v, opt)
     ctx.calls += 1
     d = 4 if spin else 2
